@@ -11,7 +11,7 @@ import numpy as np
 
 from mc import core
 from mc.core import Judgement, Recorder
-from mc.harness import validate
+from mc.harness import scipy_entry_points, validate
 
 PROPERTY = "C08"
 RULE = (
@@ -86,12 +86,8 @@ def capture() -> Any:
     def fake_de(**kwargs: Any) -> None:
         box["de"] = kwargs
 
-    orig = plugin.minimize, plugin.differential_evolution
-    plugin.minimize, plugin.differential_evolution = fake_minimize, fake_de
-    try:
+    with scipy_entry_points(fake_minimize, fake_de):
         yield box
-    finally:
-        plugin.minimize, plugin.differential_evolution = orig
 
 
 def build_config(case: dict[str, Any]) -> dict[str, Any]:
